@@ -4,11 +4,12 @@
 #include "oneapi/tbb/task_arena.h"
 #include "oneapi/tbb/task_group.h"
 #include "oneapi/tbb/global_control.h"
+#include "oneapi/tbb/parallel_for.h"
 
 namespace hx {
 
 // per-run machine / knob configuration drawn from the tape (swarm)
-inline void draw_runtime_config(Desc& d, int maxP = 6) {
+inline void draw_runtime_config(Desc& d, int maxP = 6, bool allow_warm = true) {
     static const int Ps[] = {1, 2, 3, 4, 6, 8, 12, 16};
     int n = 0;
     while (n < 8 && Ps[n] <= maxP) ++n;
@@ -16,6 +17,13 @@ inline void draw_runtime_config(Desc& d, int maxP = 6) {
     static const int knobs[] = {-1, 0, 1, 3};
     sim::g_cfg.spin_knob = knobs[sim::draw(4, "spin_knob")];
     d.add(fmt("P=%d spin_knob=%d", sim::g_cfg.P, sim::g_cfg.spin_knob));
+    // warm start (2 runs in 3): a short parallel loop first, so that worker threads already exist and are in
+    // their steal/spin/sleep cycle when the scenario proper begins (cold start is kept in the remaining runs)
+    if (allow_warm && sim::draw(3, "warm") != 0) {
+        int n = 2 * sim::g_cfg.P;
+        tbb::parallel_for(0, n, [](int) { for (int i = 0; i < 25; ++i) sim::upoint(); }, tbb::simple_partitioner());
+        d.add("warm");
+    }
 }
 
 // Unit-of-work bookkeeping: every unit must start at most once, finish at most once.
